@@ -81,6 +81,10 @@ CHECKS = {
          "exhaustive enumeration of resolution worlds and caller configurations; every tree of per-attempt outcomes (ok / error / ECH rejection with and without retry configs) explored by re-execution; oracle on the DialFunc argument log",
          "8 resolution worlds (served by an in-memory DoH responder) x 5 caller configs x RequireECH x PublicName x 3 address forms; for each, every outcome vector of the connection attempts is executed on the real Dial; every DialFunc invocation is checked for RequireECH, caller-supplied list/ServerName preservation, per-record ECH list, host-derived server name, exactly one retry with exactly the server's retry configs, and the caller's tls.Config is compared before/after.",
          "real goroutines (MaxConcurrency 1 makes the log sequential; failures re-run 5x); expected per-address lists derived through ResolveResult.Targets (decided by C15)", "§3 C17"),
+ "C19": ("model_checking", "E1 enum + E4 hist",
+         "exhaustive decision table for the HTTP/3 choice and record filtering against a reference function; every request history up to the depth bound through the real net/http stack over in-memory TLS servers against a reference",
+         "Every set of 1..2 (3) service-mode records over 6 ALPN lists x no-default-alpn x HTTP/3 round-tripper present/absent is resolved through the in-memory DoH responder and dialed through the context-carried resolver; the protocol choice and the records reaching the dialer are compared with the model. Every request sequence of length <=2 (3) over 8 origins x 3 zones, with and without Host override, is executed with the real http.Client and Transport; plaintext refusal, upgrade, SNI/ServerName, Host header, dial address/port, resp.Request identity and per-connection origin isolation are checked.",
+         "net/http and crypto/tls goroutines run outside any scheduler (failures re-run 5x); HTTP/3 represented by a fake round-tripper that dials through the context-carried resolver; record sets with equal priorities excluded", "§3 C19"),
 }
 
 NOT_YET = {}
